@@ -185,7 +185,29 @@ package pod_info
 //@   ensures result == podGroupOf(pod)
 //@ end
 
-// DRA claims of the pod as the snapshot sees them: a new map with new entries; nothing that existed before is written.
+// copy relation of the generated deep copy of an allocation: copiedFrom(c) names the object c was copied from
+//@ ghost copiedFrom(a *resourceapi.AllocationResult) *resourceapi.AllocationResult
+//@ func (*k8s.io/api/resource/v1.AllocationResult).DeepCopy
+//@   props C12 C10
+//@   trusted
+//@   note generated deepcopy (k8s.io/api, no body loaded): nil for nil, otherwise a new object; the ghost copiedFrom records its source (the content of the copy is not modelled)
+//@   ensures (result == nil) == (recv == nil)
+//@   ensures result != nil ==> fresh(result) && copiedFrom(result) == recv
+//@ end
+
+// a is the snapshot's copy of allocation b of the bind request: both nil, or a is a deep copy of b
+//@ define allocCopy(a *resourceapi.AllocationResult, b *resourceapi.AllocationResult) bool = (a == nil && b == nil) || (a != nil && b != nil && copiedFrom(a) == b)
+// the bind request names an allocation for pod claim k
+//@ define brAllocates(br *bindrequest_info.BindRequestInfo, k string) bool = br != nil && (exists i int :: 0 <= i && i < len(br.BindRequest.Spec.ResourceClaimAllocations) && br.BindRequest.Spec.ResourceClaimAllocations[i].Name == k)
+// x is a copy of one of the allocations the bind request names for pod claim k
+//@ define brAllocationOf(br *bindrequest_info.BindRequestInfo, k string, x *resourceapi.AllocationResult) bool = exists i int :: 0 <= i && i < len(br.BindRequest.Spec.ResourceClaimAllocations) && br.BindRequest.Spec.ResourceClaimAllocations[i].Name == k && allocCopy(x, br.BindRequest.Spec.ResourceClaimAllocations[i].Allocation)
+
+// C12 "every snapshot charges the pod's resources (including GPU groups and claimed devices) to the selected node":
+// DRA claims of the pod as the snapshot sees them.  For every claim reference of the pod that made it into the
+// result (key = podClaim.Name): when the live BindRequest names an allocation for that reference (ResourceClaimAllocation.
+// Name "corresponds to the podResourceClaim.Name"), the snapshot entry carries (a copy of) THAT allocation - the
+// devices promised by the bind request - and not the claim's current status.  Result: a new map with new entries;
+// nothing that existed before is written.
 //@ func resourceClaimInfoFromPodClaims
 //@   props C10 C12
 //@   requires pod != nil && resource_info.claimsNonNil(draPodClaims)
@@ -193,16 +215,24 @@ package pod_info
 //@   loop 1
 //@     invariant 0 - 1 <= rangeindex && rangeindex < len(bindRequest.BindRequest.Spec.ResourceClaimAllocations)
 //@     invariant bindingRequestClaimUpdates != nil && fresh(bindingRequestClaimUpdates)
-//@     invariant resourceClaimInfo != nil && fresh(resourceClaimInfo)
+//@     invariant resourceClaimInfo != nil && fresh(resourceClaimInfo) && resourceClaimInfo != bindingRequestClaimUpdates
 //@     invariant forall k in bindingRequestClaimUpdates :: bindingRequestClaimUpdates[k] != nil && fresh(bindingRequestClaimUpdates[k])
+//@     invariant forall k in bindingRequestClaimUpdates :: brAllocationOf(bindRequest, k, bindingRequestClaimUpdates[k].Allocation)
+//@     invariant forall i int :: 0 <= i && i <= rangeindex ==> bindRequest.BindRequest.Spec.ResourceClaimAllocations[i].Name in bindingRequestClaimUpdates
+//@     invariant forall k string :: !(k in resourceClaimInfo)
 //@   loop 2
 //@     invariant 0 - 1 <= rangeindex && rangeindex < len(pod.Spec.ResourceClaims)
-//@     invariant resourceClaimInfo != nil && fresh(resourceClaimInfo)
+//@     invariant resourceClaimInfo != nil && fresh(resourceClaimInfo) && resourceClaimInfo != bindingRequestClaimUpdates
 //@     invariant forall k in bindingRequestClaimUpdates :: bindingRequestClaimUpdates[k] != nil && fresh(bindingRequestClaimUpdates[k])
 //@     invariant forall k in resourceClaimInfo :: resourceClaimInfo[k] != nil && fresh(resourceClaimInfo[k])
+//@     invariant forall k1 in resourceClaimInfo :: forall k2 in bindingRequestClaimUpdates :: resourceClaimInfo[k1] != bindingRequestClaimUpdates[k2]
 //@     invariant forall a *schedulingv1alpha2.ResourceClaimAllocation :: a != nil && old(allocated(a)) ==> a.Allocation == old(a.Allocation)
+//@     invariant forall k in bindingRequestClaimUpdates :: brAllocationOf(bindRequest, k, bindingRequestClaimUpdates[k].Allocation)
+//@     invariant bindRequest != nil ==> (forall i int :: 0 <= i && i < len(bindRequest.BindRequest.Spec.ResourceClaimAllocations) ==> bindRequest.BindRequest.Spec.ResourceClaimAllocations[i].Name in bindingRequestClaimUpdates)
+//@     invariant forall k in resourceClaimInfo :: k in bindingRequestClaimUpdates ==> resourceClaimInfo[k].Allocation == bindingRequestClaimUpdates[k].Allocation
 //@   ensures [newMap] result0 != nil && fresh(result0)
 //@   ensures [newEntries] forall k in result0 :: result0[k] != nil && fresh(result0[k])
+//@   ensures [claimedDevices] forall k in result0 :: brAllocates(bindRequest, k) ==> brAllocationOf(bindRequest, k, result0[k].Allocation)
 //@ end
 
 // C12 "From the moment the scheduler creates a BindRequest until it reaches a terminal outcome, every snapshot charges
